@@ -280,9 +280,14 @@ fn run_c18_direct(input: RunInput) -> ScenFuture {
             }
         }
         let results: Arc<Mutex<BTreeMap<u64, (Outcome, u64)>>> = Default::default();
+        // the callers may keep the responses they got (a batch that collects them): a request is
+        // finished when its response has been produced, whoever still holds that response
+        let keep_responses = w.flag("callers_keep_their_responses", 0.3);
+        let kept: Arc<Mutex<Vec<Response<Bytes>>>> = Default::default();
         let mut tasks = Vec::new();
         for a in plan.clone() {
             let (svc, results, w2, pid) = (layered.clone(), results.clone(), w.clone(), peers[a.peer]);
+            let kept = kept.clone();
             tasks.push(tokio::spawn(async move {
                 sleep_ms(a.at_ms).await;
                 let mut req = Request::new(Bytes::new()).with_extension(pid).with_header("id", a.id.to_string()).with_header("dur-ms", a.dur_ms.to_string());
@@ -305,7 +310,12 @@ fn run_c18_direct(input: RunInput) -> ScenFuture {
                 };
                 let out = match res {
                     None => Outcome::Cancelled,
-                    Some(Ok(_)) => Outcome::Ok,
+                    Some(Ok(resp)) => {
+                        if keep_responses {
+                            kept.lock().unwrap().push(resp);
+                        }
+                        Outcome::Ok
+                    }
                     Some(Err(s)) if s.status() == StatusCode::TooManyRequests => Outcome::TooMany,
                     Some(Err(s)) if s.status() == StatusCode::InternalServerError && a.fail => Outcome::InnerError,
                     Some(Err(s)) => Outcome::Other(format!("{:?}", s.status())),
@@ -430,6 +440,7 @@ fn run_c18_direct(input: RunInput) -> ScenFuture {
         let n_refused = results.values().filter(|r| r.0 == Outcome::TooMany).count();
         w.probe_n("refused", n_refused as u64);
         w.probe_n("cancelled", results.values().filter(|r| r.0 == Outcome::Cancelled).count() as u64);
+        drop(kept);
         w.sample("history", json!({"limit": limit, "block": block, "peers": n_peers, "requests": n_req, "refused": n_refused, "first": plan.iter().take(6).map(|a| json!({"peer": a.peer, "at_ms": a.at_ms, "dur_ms": a.dur_ms, "fail": a.fail, "cancel_after_ms": a.cancel_after_ms, "outcome": results.get(&a.id).map(|r| format!("{:?}", r.0))})).collect::<Vec<_>>()}));
         w.finish()
     })
@@ -1164,6 +1175,27 @@ fn run_c20_direct(input: RunInput) -> ScenFuture {
                 allowed.insert(c);
             }
         }
+        // a very long allow-list (tens of thousands of entries): listed is listed, wherever in the
+        // list - in whatever order or index structure the layer keeps - an identity comes to lie
+        let huge = !closure_auth && w.flag("allow_list_of_70000_peers", 0.03);
+        if huge {
+            for k in 0..70_000u32 {
+                let mut id = [0u8; 32];
+                id[0] = (k % 251) as u8 + 3;
+                id[1..5].copy_from_slice(&k.to_be_bytes());
+                allowed.insert(PeerId(id));
+            }
+            // senders from all over the list, the ids that sort last among them
+            for k in [0u32, 1, 250, 30_000, 65_535, 65_536, 69_000, 69_998, 69_999] {
+                let mut id = [0u8; 32];
+                id[0] = (k % 251) as u8 + 3;
+                id[1..5].copy_from_slice(&k.to_be_bytes());
+                universe.push(PeerId(id));
+            }
+            universe.push(*allowed.iter().next_back().unwrap());
+            universe.push(*allowed.iter().next().unwrap());
+            w.probe("huge-allow-list");
+        }
         // two authorization layers stacked (a service-wide list and a stricter one inside, as with a
         // router's route_layer): a request is served only if both accept its sender
         let stacked = !closure_auth && w.flag("stacked_allow_lists", 0.3);
@@ -1237,10 +1269,19 @@ fn run_c20_direct(input: RunInput) -> ScenFuture {
         };
         let results: Arc<Mutex<BTreeMap<u64, (StatusCode, String, bool)>>> = Default::default();
         let mut tasks = Vec::new();
+        // the wrapped service cares about readiness (tower's ConcurrencyLimit, with room to spare):
+        // every clone has to be polled ready itself before it is called, whatever the instance it
+        // was cloned from had been told - in part of the runs that instance is polled ready first
+        let inner = tower::limit::ConcurrencyLimit::new(inner, 10_000);
+        let ready_before_clone = w.flag("original_polled_ready_before_it_is_cloned", 0.4);
         macro_rules! drive {
             ($svc:expr) => {
+                let mut original = $svc;
+                if ready_before_clone {
+                    let _ = futures::future::poll_fn(|cx| original.poll_ready(cx)).await;
+                }
                 for (id, req, at) in reqs {
-                    let (svc, results) = ($svc.clone(), results.clone());
+                    let (svc, results) = (original.clone(), results.clone());
                     tasks.push(tokio::spawn(async move {
                         sleep_ms(at).await;
                         let resp = svc.oneshot(req).await.unwrap();
